@@ -476,20 +476,36 @@ def run_c15(ctx):
             w.unused_public_keys.append(keys.pks[i])
             ops.append("w addkey %s %s" % (keys.pks[i].hex(), keys.sks[i].to_string().hex()))
             impl.append("ok")
-        for _ in range(rng.randrange(0, n_mine + 1)):
+        want = sum(o.value for o in tree.utxo(cs.current_chain_hash).values() if o.public_key.public_key in w.keypairs)
+
+        def check_balance(stage):
+            got = w.get_balance(cs)
+            ops.append("w balance b%d" % rep)
+            impl.append(str(got))
+            res.case(("balance", rep, stage, got), nontrivial=True)
+            res.count("balance_checks")
+            res.count("balance_with_unused_keys_paid" if any(
+                o.public_key.public_key in w.unused_public_keys and o.value > 0 for o in tree.utxo(cs.current_chain_hash).values())
+                else "balance_no_unused_key_paid")
+            if got != want:
+                res.violations.append({"kind": "reported balance is not the total of unspent outputs paying wallet keys",
+                                       "reported": got, "expected": want, "stage": stage,
+                                       "unused_keys": len(w.unused_public_keys), "handed_out": len(w.public_key_annotations)})
+
+        # the same keys in every split between handed-out and unused: none handed out, one more at a time, all, one restored
+        check_balance("none handed out")
+        handed = []
+        for k in range(n_mine):
             pk = w.get_annotated_public_key("recv")
+            handed.append(pk)
             ops.append("w handout recv 0")
             impl.append("ok " + pk.hex())
-        utxo = cs.unspent_transaction_outs_by_hash[cs.current_chain_hash]
-        want = sum(o.value for o in utxo.values() if o.public_key.public_key in w.keypairs)
-        got = w.get_balance(cs)
-        ops.append("w balance b%d" % rep)
-        impl.append(str(got))
-        res.case(("balance", rep, got), nontrivial=True)
-        res.count("balance_checks")
-        if got != want:
-            res.violations.append({"kind": "reported balance is not the total of unspent outputs paying wallet keys",
-                                   "reported": got, "expected": want})
+            check_balance("%d handed out" % (k + 1))
+        back = rng.choice(handed)
+        w.restore_annotated_public_key(back, "recv")
+        ops.append("w restore " + back.hex())
+        impl.append("ok")
+        check_balance("one restored")
         chain.unpatch()
     # ---- atomic save: the real system calls, and a crash after each of them
     for rep in range(ctx.scale(2, 6)):
